@@ -46,6 +46,18 @@ def ok_payload(t):
     return None
 
 
+def prepare(prog, ev):
+    """module state r1 relies on (also for the properties that borrow r1)"""
+    global QREF
+    if "crate::query::QueryRef" not in prog.adts:
+        cands = [p_ for p_ in prog.adts if p_.startswith("crate::") and p_.endswith("::QueryRef")]
+        if len(cands) == 1:
+            QREF = cands[0]
+    else:
+        QREF = "crate::query::QueryRef"
+    EVAL[0] = ev
+
+
 def run(ctx, rep):
     global QREF
     prog = ctx.prog
